@@ -1,6 +1,9 @@
 package scen
 
-import cid "github.com/ipfs/go-cid"
+import (
+	ipfslog "berty.tech/go-ipfs-log"
+	cid "github.com/ipfs/go-cid"
+)
 
 func cidsToStringers(cs []cid.Cid) []interface{ String() string } {
 	out := make([]interface{ String() string }, len(cs))
@@ -9,3 +12,5 @@ func cidsToStringers(cs []cid.Cid) []interface{ String() string } {
 	}
 	return out
 }
+
+type interfaceEntry = ipfslog.Entry
